@@ -105,6 +105,25 @@ theorem int_only_fields_known : intOnlyFields =
 `setattr`, `create_new_processor` assigns through `Processor.set` -/
 theorem sweep_goes_through_setter : sweepUsesSetter = true := by decide
 
+/-! ## APD bias inputs -/
+
+/-- the constructor's decisions observed on the grid (6 gains × 5 reset voltages × 5 common voltages, absent
+included) are the documented rule -/
+theorem apd_table_is_spec : apdTable.length = 150 ∧
+    apdTable.all (fun r => apdSpec r.1 r.2.1 r.2.2.1 == r.2.2.2) = true := by decide +kernel
+
+/-- accepted ⇒ exactly two of the three inputs were given -/
+theorem apd_two_of_three {g p c : Option Rat} (h : apdSpec g p c = true) :
+    (g.isSome && p.isSome && !c.isSome) || (g.isSome && !p.isSome && c.isSome) || (!g.isSome && p.isSome && c.isSome) = true := by
+  cases g <;> cases p <;> cases c <;> simp_all [apdSpec]
+
+/-- accepted with two voltages ⇒ the avalanche bias is at least 1 V (never equal or reversed voltages) -/
+theorem apd_bias_at_least_one {p c : Rat} (h : apdSpec none (some p) (some c) = true) : 1 ≤ p - c := by
+  simpa [apdSpec] using h
+
+example : apdSpec none (some 3) (some 2) = true ∧ apdSpec none (some 3) (some (5/2)) = false ∧
+    apdSpec none (some 2) (some 3) = false ∧ apdSpec (some 2) (some 5) none = true := by decide +kernel
+
 /-! ## loading a section of the YAML document -/
 
 theorem specOf_mem_specFields {cls f : String} {r : Range} (h : specOf cls f = some r) :
